@@ -46,6 +46,12 @@ ENGINE_RUN = {"harness": "hhttpe", "driver": "httpdrv", "fields": ["handled", "c
 BODY_RUN = {"harness": "hbody", "driver": "httpdrv", "fields": None, "corpus": "httpbody",
             "quick": {"n": 400, "shards": 4}, "thorough": {"n": 6000, "shards": 16}}
 
+# the real client path (ClientConn.Do -> engine -> client parser -> ClientProcessor -> callback) against a raw loopback
+# server: pipelined GET scripts (and a few with HEAD: known finding), 200 / 204 / 304, Content-Length / chunked; the model
+# parser runs over the bytes the server sent: responses delivered before the first parse error, and whether one occurred
+CLIENT_RUN = {"harness": "hclient", "driver": "httpdrv", "fields": ["got", "err"], "corpus": "httpclient",
+              "quick": {"n": 24, "shards": 3, "timeout": 600}, "thorough": {"n": 400, "shards": 8, "timeout": 1800}}
+
 PROPS = {
     "C07": {
         "manifest": {
@@ -63,9 +69,9 @@ PROPS = {
                     "neighbours of the agreed domain are classified and counted, not judged",
             "technique": "Lean 4 proof (compositional, per grammar production, on the byte-at-a-time spec; lifted to the Go-shaped loop in "
                          "any segmentation by the C06 refinement) + three-way differential correspondence"},
-        "lean": ["NbioVerif.Properties.C07", "NbioVerif.Lemmas.HttpTables", srcgen.BRIDGE_HTTP], "drivers": ["httpdrv"], "harness": ["hhttp", "hhttp7", "hbody"],
+        "lean": ["NbioVerif.Properties.C07", "NbioVerif.Lemmas.HttpTables", srcgen.BRIDGE_HTTP], "drivers": ["httpdrv"], "harness": ["hhttp", "hhttp7", "hbody", "hclient"],
         "facts": [http_tables, srcgen.src_facts],
-        "runs": [C07_RUN, BODY_RUN],
+        "runs": [C07_RUN, BODY_RUN, CLIENT_RUN],
         "oracles": ["c07-"],
         "rule": "case = 1..3 pipelined messages drawn from the Msg grammar (or one neighbour of the agreed domain) + a segmentation; distinct "
                 "by hash of (role, method/version, header-count class, framing headers and their spellings, framing kind, chunk count and "
@@ -73,7 +79,9 @@ PROPS = {
         "assumptions": ["url.ParseRequestURI / http.ParseHTTPVersion verdicts are inputs of the model (recorded from the real processors); "
                         "the model's own parseHTTPVersion is cross-checked against the recorded verdicts",
                         "the reference parser is not modelled: agreement of reqSpec/respSpec with net/http is sampled on every case",
-                        "header names ASCII (strings.ToLower / CanonicalHeaderKey are modelled bytewise)"],
+                        "header names ASCII (strings.ToLower / CanonicalHeaderKey are modelled bytewise)",
+                        "client: the request a response answers is not an input of the parser, hence not of the model; replies to HEAD that "
+                        "announce a body are the known finding HTTP-CLIENT-HEAD (reference called with the request, nbhttp not)"],
     },
     "C06": {
         "manifest": {
